@@ -84,6 +84,7 @@ def plan(seed, subbatch):
             spec["params"]["input_value"] = f"{head}_{tf}" + (f".{field}" if field else "")
     config["fill"] = fill
     config["base_s"] = base_s
+    config["utc_offset_min"] = cfg.choice((None, None, None, None, 0, 60, 330))   # timezone-aware streams
     n = cfg.choice((cfg.randint(2, 30), cfg.randint(20, 150), cfg.randint(100, 600)))
     scale = cfg.choice(SCALES)
     faults, burst = {}, None
@@ -164,6 +165,16 @@ def _label(cfg):
 
 
 def execute(trace, ctx=None):
+    from .. import catalogue
+
+    catalogue.TZ_OFFSET_MIN = trace["config"].get("utc_offset_min")
+    try:
+        return _execute(trace)
+    finally:
+        catalogue.TZ_OFFSET_MIN = None
+
+
+def _execute(trace):
     def body(run):
         cfg = trace["config"]
         label = _label(cfg)
